@@ -81,8 +81,9 @@ def configs(tier):
                 out.append({'name': 'seq-%s-%s-%dx%d-%s-read_%s' % (a, b, shp[0], shp[1], pat, between), 'kind': 'seq', 'muts': [a, b],
                             'shape': list(shp), 'nan': pat, 'between': between})
     for nsmp in ((3, 4) if q else (3, 4, 5)):
-        out.append({'name': 'stats-%d' % nsmp, 'kind': 'stats', 'n': nsmp})
-        out.append({'name': 'stats-ineq-%d' % nsmp, 'kind': 'stats_ineq', 'n': nsmp})
+        # one path per ordering / sign pattern of the samples (PV and Sa branch on them)
+        out.append({'name': 'stats-%d' % nsmp, 'kind': 'stats', 'n': nsmp, 'max_paths': 2000})
+        out.append({'name': 'stats-ineq-%d' % nsmp, 'kind': 'stats_ineq', 'n': nsmp, 'max_paths': 2000})
     for shp in [(3, 3), (3, 4)]:
         for pat in ('none', 'ragged'):
             out.append({'name': 'idempotence-%dx%d-%s' % (shp[0], shp[1], pat), 'kind': 'idem', 'shape': list(shp), 'nan': pat})
